@@ -441,7 +441,7 @@ def setters_trivial(info):
 
 
 def generate(repo):
-    g = Gen('C12', imports=['PrysmVerif.Model.C12'], opens=['Model.C12'])
+    g = Gen('C12', imports=['PrysmVerif.Model.C12'], opens=['Model.C12'], header='set_option linter.unusedVariables false')
     rd, _ = load(repo, 'prysm/_richdata.py')
     ig, _ = load(repo, 'prysm/interferogram.py')
     base = get_def(rd, 'RichData')
@@ -506,6 +506,65 @@ def generate(repo):
                     '    these leave the set of invalid samples unchanged -/\n'
                     'def keepers : List (String × List Eff) :=\n  [' +
                     ',\n   '.join(f'("{key}", {ln})' for ln, key in entries if key.split('#')[0] not in changers) + ']\n')
+    # ---- crop: the slice arithmetic of every branch, normalised as NumPy normalises slice bounds
+    def crop_slices():
+        from pyexpr2lean import Tr
+        fn = info.methods['crop']
+        env = {'left': 'left', 'right': 'right', 'top': 'top', 'bottom': 'bottom',
+               'self.data.shape[0]': 'rows', 'self.data.shape[1]': 'cols', 'self.shape[0]': 'rows', 'self.shape[1]': 'cols'}
+        for st in fn.body:      # `m, n = self.data.shape`
+            if isinstance(st, ast.Assign) and isinstance(st.targets[0], ast.Tuple) and len(st.targets[0].elts) == 2 \
+                    and ast.unparse(st.value) in ('self.data.shape', 'self.shape') \
+                    and all(isinstance(e, ast.Name) for e in st.targets[0].elts):
+                env[st.targets[0].elts[0].id] = 'rows'
+                env[st.targets[0].elts[1].id] = 'cols'
+        tr = Tr(env)
+        # which local slices the data, on which axis
+        sub = None
+        for st in ast.walk(fn):
+            if isinstance(st, ast.Assign) and _is_self_attr(st.targets[0], ('data',)) and isinstance(st.value, ast.Subscript) \
+                    and _is_self_attr(st.value.value, ('data',)):
+                sub = st.value.slice
+        if not (isinstance(sub, ast.Tuple) and len(sub.elts) == 2 and all(isinstance(e, ast.Name) for e in sub.elts)):
+            raise Untranslatable('data is not cut by `self.data[<name>, <name>]`')
+        names = [e.id for e in sub.elts]
+
+        def bounds(call, axis_len):
+            if not (isinstance(call, ast.Call) and ast.unparse(call.func) == 'slice' and not call.keywords and 1 <= len(call.args) <= 2):
+                raise Untranslatable(f'not a slice(a, b): {ast.unparse(call)[:40]}')
+            args = call.args if len(call.args) == 2 else [ast.Constant(value=None), call.args[0]]
+
+            def one(a, default):
+                if isinstance(a, ast.Constant) and a.value is None:
+                    return default
+                return f'(normIdx {axis_len} {tr.expr(a)})'
+            return one(args[0], '(0 : Int)'), one(args[1], axis_len)
+
+        def chain(node_list, name, axis_len):
+            """Lean (lo, hi) terms for the if/elif chain assigning `name`"""
+            for st in node_list:
+                if isinstance(st, ast.Assign) and len(st.targets) == 1 and isinstance(st.targets[0], ast.Name) \
+                        and st.targets[0].id == name:
+                    return bounds(st.value, axis_len)
+                if isinstance(st, ast.If) and any(isinstance(n, ast.Assign) and isinstance(n.targets[0], ast.Name)
+                                                  and n.targets[0].id == name for n in ast.walk(st)):
+                    c = tr.cond(st.test)
+                    lo1, hi1 = chain(st.body, name, axis_len)
+                    if not st.orelse:
+                        raise Untranslatable(f'{name} is not assigned on every branch')
+                    lo2, hi2 = chain(st.orelse, name, axis_len)
+                    return f'(if {c} then {lo1} else {lo2})', f'(if {c} then {hi1} else {hi2})'
+            raise Untranslatable(f'no assignment to {name}')
+        rlo, rhi = chain(fn.body, names[0], 'rows')
+        clo, chi = chain(fn.body, names[1], 'cols')
+        sig = '(left right top bottom rows cols : Int) : Int'
+        return (f'def cropRowLo {sig} := {rlo}\ndef cropRowHi {sig} := {rhi}\n'
+                f'def cropColLo {sig} := {clo}\ndef cropColHi {sig} := {chi}')
+    sig = '(left right top bottom rows cols : Int) : Int'
+    g.item('crop.slices', 'prysm/interferogram.py:Interferogram.crop', lambda: info.methods['crop'], crop_slices,
+           '\n'.join(f'def {nm} {sig} := {M}.{nm} left right top bottom rows cols'
+                     for nm in ('cropRowLo', 'cropRowHi', 'cropColLo', 'cropColHi')))
+
     g.fact('settersTrivial', 'prysm/_richdata.py:RichData.{x,y,r,t}.setter', lambda: setters_trivial(info))
     text, items = g.finish()
     return text, items
